@@ -40,6 +40,7 @@ type harnessRun struct {
 }
 
 type replayCase struct {
+	reruns int // additional native runs made because the first disagreed with the engine
 	path    string
 	res     *gosym.PathResult
 	purpose string // "violation" | "validate"
@@ -217,6 +218,7 @@ func (c *Check) Run(sel []HarnessDef) int {
 			}
 		}
 		cfg.Summaries = h.Summaries
+		cfg.NoFastPath = tc.NoFastPath || os.Getenv("VERIF_NO_FASTPATH") != ""
 		ex := &gosym.Explorer{Prog: ld.Prog, Cfg: cfg, H: &gosym.Harness{Name: h.Name, Pkg: pkg, Entry: fn}}
 		hr.ex = ex
 		ex.Run()
@@ -309,6 +311,9 @@ func mergeTier(q, t TierCfg) TierCfg {
 	}
 	if t.SolverMs != 0 {
 		out.SolverMs = t.SolverMs
+	}
+	if t.NoFastPath {
+		out.NoFastPath = true
 	}
 	return out
 }
@@ -492,14 +497,9 @@ func (c *Check) runNativeReplays(runs []*harnessRun, overlay map[string][]byte) 
 		// one process per replay file: a crash or hang of the real code only affects that replay
 		sem := make(chan struct{}, 8)
 		var wg sync.WaitGroup
-		for k, rc := range cases {
-			wg.Add(1)
-			sem <- struct{}{}
-			go func(k int, rc *replayCase) {
-				defer wg.Done()
-				defer func() { <-sem }()
-				list := filepath.Join(tmp, fmt.Sprintf("list-%s-%d", tag, k))
-				out := filepath.Join(tmp, fmt.Sprintf("out-%s-%d", tag, k))
+		runOne := func(k int, rc *replayCase, attempt int) *nativeResult {
+				list := filepath.Join(tmp, fmt.Sprintf("list-%s-%d-%d", tag, k, attempt))
+				out := filepath.Join(tmp, fmt.Sprintf("out-%s-%d-%d", tag, k, attempt))
 				os.WriteFile(list, []byte(rc.path), 0o644)
 				tmo := "60s"
 				if os.Getenv("VERIF_REPLAY_DEBUG") != "" {
@@ -543,10 +543,44 @@ func (c *Check) runNativeReplays(runs []*harnessRun, overlay map[string][]byte) 
 						nr = &nativeResult{File: rc.path, Kind: "crash", Msg: firstLines(string(ro), 12)}
 					}
 				}
-				rc.native = nr
+				return nr
+		}
+		for k, rc := range cases {
+			wg.Add(1)
+			sem <- struct{}{}
+			go func(k int, rc *replayCase) {
+				defer wg.Done()
+				defer func() { <-sem }()
+				rc.native = runOne(k, rc, 0)
 			}(k, rc)
 		}
 		wg.Wait()
+		// Real time is part of a native run of a concurrent scenario. A single run
+		// that disagrees with the engine is repeated (alone, not in parallel) up to
+		// twice: a validation sample counts as validated if any run agrees, and a
+		// counterexample counts as confirmed if any run reproduces it.
+		for k, rc := range cases {
+			agrees := func(nr *nativeResult) bool {
+				if nr == nil {
+					return false
+				}
+				if rc.purpose == "validate" {
+					return nr.Kind == "ok" && sameObs(nr.Observes, rc.res.Observes)
+				}
+				return (nr.Kind == "violation" && containsStr(nr.labels(), rc.res.Label)) || (nr.Kind == "crash" && (rc.res.Label == "panic" || rc.res.Label == "hang"))
+			}
+			if agrees(rc.native) {
+				continue
+			}
+			for attempt := 1; attempt <= 2; attempt++ {
+				nr := runOne(k, rc, attempt)
+				rc.reruns++
+				if agrees(nr) {
+					rc.native = nr
+					break
+				}
+			}
+		}
 		c.logf("native replay %s: %d files in %.1fs", pkg, len(cases), time.Since(t0).Seconds())
 	}
 	return nil
@@ -735,6 +769,11 @@ func (c *Check) verdict(runs []*harnessRun, ld *gosym.Loaded, loadS float64) int
 		bounds = append(bounds, fmt.Sprintf("%s: %s params=%v delays=%d", hr.def.Name, hr.def.Bounds, hr.tc.Params, hr.tc.Delays))
 		hinfo := map[string]any{"harness": hr.def.Name, "paths": st.Paths, "completed": st.Completed, "dropped_infeasible": st.Dropped,
 			"violating_paths": st.Violations + st.Hang, "wall_s": st.Wall.Seconds(), "covers": st.Covers, "outside_claim": hr.def.Outside}
+		nrer := 0
+		for _, rc := range hr.replays {
+			nrer += rc.reruns
+		}
+		hinfo["native_reruns"] = nrer
 		harnessInfo = append(harnessInfo, hinfo)
 
 		for p, n := range hr.otherProp {
